@@ -264,6 +264,31 @@ def run_case(ctx, rng, idx):
         except Exception as e:
             ctx.check("C05:extract", False, f"C05:subhypergraph_largest_component:raised:{type(e).__name__}", wit)
         unchanged("subhypergraph_largest_component")
+        # ... restricted to the hyperedges of one size / order: the node set is a largest class of the reachability relation
+        # generated by THOSE hyperedges (keyword and, in the method's documented order (size, order), positional)
+        for s_ in rng.sample(sizes, min(len(sizes), 2)) if sizes else []:
+            sel_s = [k for k in S.edges if K.size(k) == s_]
+            comps_s = components(S.nodes, sel_s)
+            big_s = max(len(c_) for c_ in comps_s)
+            maximal_s = [c_ for c_ in comps_s if len(c_) == big_s]
+            for form, fn in (("size", lambda: h.subhypergraph_largest_component(size=s_)), ("order", lambda: h.subhypergraph_largest_component(order=s_ - 1)),
+                             ("positional-size", lambda: h.subhypergraph_largest_component(s_))):
+                try:
+                    g = fn()
+                    Gn = set(g.get_nodes())
+                    ok = any(c_ == Gn for c_ in maximal_s)
+                    ctx.check("C05:extract", ok, f"C05:subhypergraph_largest_component({form}-filter):not-a-largest-component-under-the-filter",
+                              lambda: dict(wit((form, s_)), got=sorted(map(repr, Gn)), maximal=[sorted(map(repr, c_)) for c_ in maximal_s][:3]))
+                    if ok:  # whatever it contains is taken from the source unchanged and lies inside the component
+                        G = observe(g)
+                        sound = all(k in S.edges and K.nodes(k) <= Gn and G.edges[k][0] == S.edges[k][0] and G.edges[k][1] == S.edges[k][1] for k in G.edges) \
+                            and all(G.nodes[n] == S.nodes[n] for n in G.nodes) and bool(G.weighted) == bool(S.weighted)
+                        ctx.check("C05:extract", sound, f"C05:subhypergraph_largest_component({form}-filter):content-not-from-the-source", lambda: dict(wit((form, s_)), got=G.describe()))
+                except CaseAbort:
+                    raise
+                except Exception as e:
+                    ctx.check("C05:extract", False, f"C05:subhypergraph_largest_component({form}-filter):raised:{type(e).__name__}", lambda: wit((form, s_)))
+        unchanged("subhypergraph_largest_component(filter)")
         # the same source again after an in-place edit that keeps the node and hyperedge counts
         from ..mutate import same_count_edit
 
